@@ -493,6 +493,16 @@ func (p *parser) parseContainerType(node *node32) (typ *Type, err error) {
 	}
 }
 
+// parseIntConstant reads an IntConstant of the grammar: '0x' hex digits, '0o'
+// octal digits, otherwise decimal digits (leading zeros do not make it octal).
+func parseIntConstant(text string, bitSize int) (int64, error) {
+	base := 10
+	if strings.HasPrefix(text, "0x") || strings.HasPrefix(text, "0o") {
+		base = 0
+	}
+	return strconv.ParseInt(text, base, bitSize)
+}
+
 func (p *parser) parseConstValue(node *node32) (cv *ConstValue, err error) {
 	node, err = checkrule(node, ruleConstValue)
 	if err != nil {
@@ -504,7 +514,7 @@ func (p *parser) parseConstValue(node *node32) (cv *ConstValue, err error) {
 		double, _ := strconv.ParseFloat(p.ownText(node), 64)
 		return &ConstValue{Type: ConstType_ConstDouble, TypedValue: &ConstTypedValue{Double: &double}}, nil
 	case ruleIntConstant:
-		i, err := strconv.ParseInt(p.pegText(node), 0, 64)
+		i, err := parseIntConstant(p.pegText(node), 64)
 		if err != nil {
 			return nil, fmt.Errorf("parseConstValue failed at '%s': %w", p.pegText(node), err)
 		}
@@ -598,7 +608,7 @@ func (p *parser) parseEnum(node *node32) (err error) {
 			v.Name = p.pegText(n)
 			if n.next.pegRule == ruleEQUAL {
 				n = n.next.next
-				v.Value, _ = strconv.ParseInt(p.pegText(n), 0, 64)
+				v.Value, _ = parseIntConstant(p.pegText(n), 64)
 			} else {
 				if len(values) == 0 {
 					v.Value = 0
